@@ -5,7 +5,7 @@ import Arimaa.Lemmas.RsAgreeRep
 Agreement of the regenerated model with the hand model: `has_move`, `is_terminal`.
 -/
 namespace Arimaa.RsAgree
-open Arimaa Arimaa.Gen Arimaa.Gen.Rs Arimaa.Rt
+open Arimaa Arimaa.Gen Arimaa.Gen.RsBase Arimaa.Rt
 
 theorem has_move_eq (s : GameState) (b : Board) :
     GameState_has_move s b = Res.guard (s.hasMovePanics b) (s.hasMove b) := by
